@@ -9,7 +9,7 @@
   `cyc`, `anti`, `nondeg` hold for ALL inputs (degenerate ones too — C02); the transitivity of the sort order
   and Knuth's `t1 t2 t3` are derived from the three-term Grassmann–Plücker identity (`C10L.gp3`).
 
-  NOT proved: `t1 t2 t3` / `trans` for DEGENERATE configurations, where the sign is decided by the symbolic
+  Proved in `Properties/C10_Degenerate.lean` (`signLaws_degenerate`, from `C02.sos_global_holds`), not here: `t1 t2 t3` / `trans` for DEGENERATE configurations, where the sign is decided by the symbolic
   perturbation.  They are sign-consequences of Grassmann–Plücker relations, so they hold for every sign function
   that is realised by one genuine point configuration; for `exactDecisionI` that realisability is exactly C02's
   unproved `sos_global` (one perturbation per point serving all triples).  `signLaws_degenerate_statement` below
@@ -114,7 +114,7 @@ theorem ltAround_cyclic_without_halfspace :
     exactDecisionI ⟨0, 0, 1⟩ ⟨2, 0, 1⟩ ⟨-1, 2, 1⟩ = 1 ∧ exactDecisionI ⟨0, 0, 1⟩ ⟨-1, 2, 1⟩ ⟨-1, -2, 1⟩ = 1 ∧
     exactDecisionI ⟨0, 0, 1⟩ ⟨-1, -2, 1⟩ ⟨2, 0, 1⟩ = 1 := by decide +kernel
 
-/-- FULL statement that is NOT proved: the laws for arbitrary (also degenerate) distinct points of an open
+/-- FULL statement, PROVED in `Properties/C10_Degenerate.lean` (`signLaws_degenerate`): the laws for arbitrary (also degenerate) distinct points of an open
     half-space, the half-space side being read off the exact sign itself.  Follows from C02's `sos_global`
     (not proved there) because `t1 t2 t3` and `trans` are sign-consequences of Grassmann–Plücker relations of
     the genuinely perturbed configuration; `signLaws_exact_general_position` is the part with no vanishing
